@@ -525,8 +525,24 @@ func TakeUntil[T, S any](signal Observable[S]) func(Observable[T]) Observable[T]
 
 							destination.NextWithContext(ctx, value)
 						},
-						destination.ErrorWithContext,
-						destination.CompleteWithContext,
+						func(ctx context.Context, err error) {
+							// Once the signal has fired the output completes: a failure of the
+							// source that arrives between the flag and that completion (the
+							// signal runs on another goroutine) must not take its place.
+							if atomic.LoadUint32(&ready) == 1 {
+								OnDroppedNotification(ctx, NewNotificationError[T](err))
+								return
+							}
+
+							destination.ErrorWithContext(ctx, err)
+						},
+						func(ctx context.Context) {
+							if atomic.LoadUint32(&ready) == 1 {
+								return
+							}
+
+							destination.CompleteWithContext(ctx)
+						},
 					),
 				),
 			)
